@@ -405,6 +405,35 @@ def suite_electrodes(ctx):
                           'not a closed planar square of that area with '
                           'right-handed normal along the dipole',
                           {'azimuth': az, 'elevation': el, 'area': area})
+        # a magnetic dipole given by its two electrodes: closed planar square
+        # loop, area = dipole length, right-handed normal = dipole direction
+        if length > 1.0:
+            with warnings.catch_warnings():
+                warnings.simplefilter('ignore')
+                md = emg3d.TxMagneticDipole(dip)
+                md6 = emg3d.TxMagneticDipole(np.asarray(dip).ravel('F'))
+            for mdx in (md, md6):
+                lp = np.asarray(mdx.points, float)
+                sd = np.diff(lp, axis=0)
+                nm = np.cross(sd[0], sd[1])
+                dirv = (dip[1]-dip[0])/length
+                okm = (lp.shape == (5, 3) and np.allclose(lp[0], lp[-1]) and
+                       np.allclose(nm/np.linalg.norm(nm), dirv, atol=1e-9) and
+                       np.isclose(np.linalg.norm(nm), length, rtol=1e-9) and
+                       np.allclose(lp[:-1].mean(0), dip.mean(0),
+                                   atol=1e-9*max(1.0, length)))
+                if not okm:
+                    ctx.violation(
+                        'magnetic-dipole-loop',
+                        f'TxMagneticDipole from the electrodes '
+                        f'{np.round(dip, 6).tolist()} (azimuth {az}, elevation '
+                        f'{el}, length {length}): the loop is not a closed '
+                        f'square of area = length centred on the dipole with '
+                        f'its right-handed normal along the dipole (normal '
+                        f'{(nm/np.linalg.norm(nm)).tolist()}, dipole direction '
+                        f'{dirv.tolist()}, area {np.linalg.norm(nm)})',
+                        {'azimuth': az, 'elevation': el, 'length': length})
+                    break
         ctx.count(key=('el', t))
     # the three coordinate formats give the same electrodes
     p5 = (1.0, 2.0, -3.0, 40.0, 20.0)
